@@ -577,7 +577,7 @@ def invalid_model(draw):
     ilas = [c for c in names if eff[c] == 'ILA']
     rules = [r for r in INVALID_RULES
              if not (r == 'eqpt-missing-link' and not non_adjacent) and not (r == 'eqpt-two-rows-ila' and not ilas)]
-    rule = draw(st.sampled_from(rules))
+    rule = rules[draw(st.integers(0, 2 ** 24)) % len(rules)]      # de-biased: sampled_from favours the first entries
     detail = rule
     unknown = draw(st.sampled_from(['toto', 'Paris', 'Corlay2']))
 
@@ -672,7 +672,7 @@ SHAPES = ['fused-degree-1', 'fused-degree-3', 'self-link', 'retyped-roadm-eqpt-r
 @st.composite
 def shape_model(draw, shapes=tuple(SHAPES)):
     """Workbooks outside the ordinary classes whose treatment the documentation decides (see C20 findings)."""
-    shape = draw(st.sampled_from(list(shapes)))
+    shape = list(shapes)[draw(st.integers(0, 2 ** 24)) % len(shapes)]
     m = draw(valid_model(services=False, n_range=(3, 6)))
     names = [s['city'] for s in m['sites']]
     deg = degrees(m)
